@@ -61,7 +61,7 @@ func verifyCaveats(caveats []string, userID string) error {
 	// U: unknownCaveat
 	// v: caveat to be verified
 	var verified uint8
-	now := time.Now().Second()
+	now := int(time.Now().Unix())
 
 LoopCaveat:
 	for _, caveat := range caveats {
